@@ -698,6 +698,42 @@ class _NoTimer:
 
 
 NOW_MS = 1_700_000_000_000
+CLOCK = None     # the installed realstack.VClock (set by env())
+
+
+class env:
+    """virtual clock at NOW_MS + router timers that never fire (scenarios that need timers install VTimers themselves)"""
+
+    def __enter__(self):
+        global CLOCK
+        self.c = rs.VClock(NOW_MS)
+        self.c.install()
+        CLOCK = self.c
+        self.old = router_mod.Timer
+        router_mod.Timer = _NoTimer
+        return self.c
+
+    def __exit__(self, *a):
+        global CLOCK
+        router_mod.Timer = self.old
+        self.c.uninstall()
+        CLOCK = None
+
+
+class vtimers:
+    """router_mod.Timer -> virtual timers on the installed clock (ether.VTimers); the clock is put back afterwards so
+    that position-vector timestamps of later cases stay congruent with it"""
+
+    def __enter__(self):
+        import ether
+        self.vt = ether.VTimers(CLOCK)
+        self.old = router_mod.Timer
+        router_mod.Timer = self.vt.make_timer_class()
+        return self.vt
+
+    def __exit__(self, *a):
+        router_mod.Timer = self.old
+        CLOCK.ms = NOW_MS
 UNITS = (50, 1000, 10000, 100000)
 REPRESENTABLE = sorted({m * u for u in UNITS for m in range(64)})
 
@@ -745,6 +781,13 @@ def emit(case):
         if kind == "beacon":
             r.gn_data_request_beacon()
         elif kind == "lsq":
+            if case.get("retrans"):
+                # LS retransmit timer path (Router._ls_retransmit -> _send_ls_request_packet): every expiry sends again
+                with vtimers() as vt:
+                    r.gn_ls_request(mk_addr(case["sought"]))
+                    for _ in range(case["retrans"]):
+                        vt.advance(r.mib.itsGnLocationServiceRetransmitTimer)
+                    return ll.take()
             r.gn_ls_request(mk_addr(case["sought"]))
         elif kind == "lsr":
             # a requester asks for r's address; r answers
@@ -763,7 +806,8 @@ def emit(case):
             dest = None
             if kind == "guc":
                 peer = case["peer"]
-                r.location_table.new_shb_packet(mk_lpv(peer), b"")
+                if not case.get("via_ls"):
+                    r.location_table.new_shb_packet(mk_lpv(peer), b"")
                 dest = mk_addr(peer[0:3])
             if rq["btp"] is not None and kind != "guc":
                 b = BTPRouter(r)
@@ -782,6 +826,16 @@ def emit(case):
                 r.gn_data_request(GNDataRequest(upper_protocol_entity=nh, packet_transport_type=ptt, traffic_class=tc,
                                                 data=data, length=len(data), area=area, max_hop_limit=rq["mhl"],
                                                 max_packet_lifetime=life, destination=dest))
+                if kind == "guc" and case.get("via_ls"):
+                    # destination unknown: r sent an LS request and buffered the request; the destination answers; on the LS
+                    # reply r releases the buffered request as a GUC packet (send site of gn_data_request_guc via the LS path)
+                    first = ll.take()
+                    q, qll, _ = mk_router(case["peer_mib"], case["peer"])
+                    if len(first) == 1:
+                        q.gn_data_indicate(first[0])
+                        for rep in qll.take():
+                            r.gn_data_indicate(rep)
+                    return first + ll.take()
     return ll.take()
 
 
@@ -970,10 +1024,40 @@ def g_case(rng, kind, plain_mib=False):
     if kind == "lsr":
         case["ego"][3] = now_tst()
         case["mib"][0] = 1   # the replier must accept the requester's packet (receivers check the version)
+    if kind in ("gbc", "gac") and rng.random() < 0.35:
+        # source inside its own destination area: the AREA_FORWARDING send site of gn_data_request_gbc
+        case["req"]["area"][0], case["req"]["area"][1] = case["ego"][4], case["ego"][5]
+        case["inside"] = True
+    if kind == "lsq" and rng.random() < 0.2:
+        case["retrans"] = rng.randint(1, 3)      # + packets sent from the LS retransmit timer
+    if kind == "guc" and rng.random() < 0.25:
+        case["via_ls"] = True                    # destination unknown: LS request, reply, buffered request released
+        case["ego"][3] = now_tst()
+        case["mib"][0] = 1
     return case
 
 
 KINDS = ["beacon", "shb", "gbc", "gac", "guc", "lsq", "lsr"]
+
+
+def split_case(case, sent):
+    """cases that legitimately put several packets on the link layer -> [(single-packet case, [packet])]"""
+    nxt = lambda sn: (sn + 1) % 65535
+    if case["kind"] == "lsq" and case.get("retrans"):
+        if len(sent) != case["retrans"] + 1:
+            return None
+        out, sn = [], case.get("sn_prev", 0)
+        for p in sent:
+            out.append((dict(case, sn_prev=sn, retrans=0), [p]))
+            sn = nxt(sn)
+        return out
+    if case["kind"] == "guc" and case.get("via_ls"):
+        if len(sent) != 2:
+            return None
+        sn = case.get("sn_prev", 0)
+        ls = {"kind": "lsq", "mib": case["mib"], "ego": case["ego"], "sn_prev": sn, "sought": case["peer"][0:3]}
+        return [(ls, [sent[0]]), (dict(case, sn_prev=nxt(sn), via_ls=False), [sent[1]])]
+    return [(case, sent)]
 
 
 def run_packet_cases(ctx, batch, cases, var, tag):
@@ -986,13 +1070,23 @@ def run_packet_cases(ctx, batch, cases, var, tag):
         ctx.evals()
         if sent is None:
             continue
-        res = judge_packet(ctx, case, sent)
-        ctx.cover(f"pkt:{case['kind']}:{tag}")
-        ctx.nontrivial(("pkt", case["kind"], tuple(case["ego"]), tuple(case["mib"]), str(case.get("req"))))
-        if len(sent) == 1:
-            batch.add("pkt." + case["kind"], case, sent[0].hex(), model_line(case, var))
-            if case["kind"] != "beacon":
-                ctx.sample("packet:" + case["kind"], {"case": case, "wire": sent[0].hex(), "oracle": [w for w, _ in res] or "conforms"}, per_kind=1)
+        parts = split_case(case, sent)
+        if parts is None:
+            ctx.violation(f"{case['kind']} ({'LS retransmission' if case.get('retrans') else 'released by LS reply'}): "
+                          f"{len(sent)} packets on the link layer", {"kind": "pkt", "case": case})
+            continue
+        sub = ("retrans" if case.get("retrans") else "via_ls" if case.get("via_ls") else
+               "inside" if case.get("inside") else "plain")
+        ctx.cover(f"pkt:{case['kind']}:{tag}:{sub}")
+        ctx.nontrivial(("pkt", case["kind"], tuple(case["ego"]), tuple(case["mib"]), str(case.get("req")), sub))
+        for sc, pk in parts:
+            res = judge_packet(ctx, sc, pk, report=False)
+            for what, fid in res:
+                ctx.violation(what, {"kind": "pkt", "case": case}, fid)    # replay re-runs the whole scenario
+            if len(pk) == 1:
+                batch.add("pkt." + sc["kind"], sc, pk[0].hex(), model_line(sc, var))
+                if sc["kind"] != "beacon":
+                    ctx.sample("packet:" + sc["kind"] + ":" + sub, {"case": sc, "wire": pk[0].hex(), "oracle": [w for w, _ in res] or "conforms"}, per_kind=1)
 
 
 def check_packets(ctx, batch, var):
@@ -1031,8 +1125,15 @@ def check_packets(ctx, batch, var):
 
 
 # ---- forwarding ---------------------------------------------------------------------------------------
-def build_fwd_case(rng, kind):
+FWD_MODES = {"tsb": ["simple"], "gac": ["simple"], "guc": ["simple"], "lsq": ["simple"], "lsr": ["simple"],
+             # GBC: immediate re-broadcast inside the area (SIMPLE), greedy outside the area, buffered by contention-based
+             # forwarding and sent from the CBF timer (the MIB default), SCF set with no neighbour (third send site)
+             "gbc": ["simple-inside", "outside", "cbf", "cbf", "scf-noneigh"]}
+
+
+def build_fwd_case(rng, kind, mode=None):
     """a conformant packet of `kind` from some source, built with the reference packer, + the forwarder's set-up"""
+    mode = mode or rng.choice(FWD_MODES[kind])
     tst = now_tst()
     so = g_lpv(rng)
     so[3] = tst
@@ -1053,7 +1154,11 @@ def build_fwd_case(rng, kind):
     elif kind in ("gbc", "gac"):
         ht, hst = (4 if kind == "gbc" else 3), rng.randint(0, 2)
         # area far from the forwarder (GAC must not be delivered locally; GBC then goes the non-area path) or around it
-        inside = kind == "gbc" and rng.random() < 0.5
+        inside = kind == "gbc" and mode in ("simple-inside", "cbf")
+        if mode == "scf-noneigh":
+            tc[0] = 1
+        if mode == "cbf":
+            so[6] = rng.randint(0, 1)   # with PAI the timeout depends on the distance to the sender, without it is TO_CBF_MAX
         if inside:
             alat, alon = fwd_ego[4], fwd_ego[5]
         else:
@@ -1074,10 +1179,20 @@ def build_fwd_case(rng, kind):
         ext = ref_pack(R_LSQ, [sn, 0] + lpv_ref(so) + ga_ref(sought))
     basic = ref_pack(R_BASIC, [1, 1, 0, lt >> 2, lt & 3, rhl])
     common = ref_pack(R_COMMON, [nh, 0, ht, hst, tc[0], tc[1], tc[2], mobile, 0, len(payload), mhl, 0])
-    return {"kind": "fwd", "orig": kind, "pkt": (basic + common + ext + payload).hex(), "fwd_ego": fwd_ego}
+    return {"kind": "fwd", "orig": kind, "mode": mode, "pkt": (basic + common + ext + payload).hex(), "fwd_ego": fwd_ego}
 
 
 def forward(case):
+    """everything the forwarder puts on the link layer for the received packet, timer paths included"""
+    if case.get("mode") == "cbf":
+        # MIB default: area forwarding = CBF.  The packet is buffered and transmitted by Router._cbf_timeout when the
+        # contention timer (<= itsGnCbfMaxTime) expires
+        with vtimers() as vt:
+            r, ll, inds = mk_router([1, 1, 10, 60, 0], case["fwd_ego"])
+            with rs.quiet():
+                r.gn_data_indicate(bytes.fromhex(case["pkt"]))
+                vt.advance(r.mib.itsGnCbfMaxTime + 1)
+            return ll.take()
     r, ll, inds = mk_router([1, 1, 10, 60, 0], case["fwd_ego"], itsGnAreaForwardingAlgorithm=AreaForwardingAlgorithm.SIMPLE)
     with rs.quiet():
         r.gn_data_indicate(bytes.fromhex(case["pkt"]))
@@ -1088,11 +1203,12 @@ def judge_forward(ctx, case, sent, report=True):
     pkt = bytes.fromhex(case["pkt"])
     want = pkt[:3] + bytes([pkt[3] - 1]) + pkt[4:]
     out = []
+    tagm = f"forwarded {case['orig']} [{case.get('mode', 'simple')}]"
     if len(sent) != 1:
-        out.append(f"forwarded {case['orig']}: {len(sent)} packets sent, expected 1")
+        out.append(f"{tagm}: {len(sent)} packets sent, expected 1")
     elif sent[0] != want:
         i = next((i for i in range(min(len(want), len(sent[0]))) if want[i] != sent[0][i]), -1)
-        out.append(f"forwarded {case['orig']}: differs from the received packet beyond RHL-1 at octet {i}: {sent[0].hex()} vs {want.hex()}")
+        out.append(f"{tagm}: differs from the received packet beyond RHL-1 at octet {i}: {sent[0].hex()} vs {want.hex()}")
     if report:
         for w in out:
             ctx.violation(w, {"kind": "fwd", "case": case})
@@ -1111,7 +1227,7 @@ def check_forwarding(ctx, batch):
                 continue
             ctx.evals()
             judge_forward(ctx, case, sent)
-            ctx.cover(f"fwd:{kind}")
+            ctx.cover(f"fwd:{kind}:{case['mode']}")
             ctx.nontrivial(("fwd", case["pkt"]))
             if len(sent) == 1:
                 batch.add("pkt.fwd." + case["orig"], case, sent[0].hex(), f"pkt fwd {case['pkt']}")
@@ -1144,9 +1260,8 @@ def run(ctx):
     var = variant()
     ctx.extra["variant"] = {"C20-KF1 capped": bool(var[0]), "C02-KF1 beacon flag repaired": bool(var[1]),
                             "C02-KF2 version from MIB": bool(var[2])}
-    router_mod.Timer = _NoTimer
     try:
-        with rs.VClock(NOW_MS):
+        with env():
             batch = Batch(ctx)
             run_corpus(ctx, batch, var)
             check_spec_twin(ctx, batch)
@@ -1156,7 +1271,7 @@ def run(ctx):
             check_packets(ctx, batch, var)
             check_forwarding(ctx, batch)
     finally:
-        router_mod.Timer = threading.Timer
+        pass
     batch.flush()
     ctx.cover("model_lines", getattr(batch, "total", 0))   # ONE driver call for the whole run (driver start-up dominates otherwise)
     if ctx.thorough:
@@ -1167,9 +1282,8 @@ def search(ctx):
     """a theorem / generated obligation / correspondence broke: 3x volume on the real code, oracle only"""
     ok = ctx.model_ok
     ctx.model_ok = False
-    router_mod.Timer = _NoTimer
     try:
-        with rs.VClock(NOW_MS):
+        with env():
             var = variant()
             batch = Batch(ctx)
             for _ in range(3):
@@ -1182,7 +1296,6 @@ def search(ctx):
                 if ctx.violations:
                     break
     finally:
-        router_mod.Timer = threading.Timer
         ctx.model_ok = ok
 
 
@@ -1220,16 +1333,19 @@ def replay(ctx, obj):
         print(f"traffic class {tc}: {'violated' if bad else 'ok'}")
         return bad
     if kind in ("pkt", "fwd"):
-        router_mod.Timer = _NoTimer
         try:
-            with rs.VClock(NOW_MS):
+            with env():
                 if kind == "pkt":
                     try:
                         sent = emit(case["case"])
                     except Exception as e:  # noqa: BLE001
                         print(f"origination raised {type(e).__name__}: {e}")
                         return True
-                    res = judge_packet(ctx, case["case"], sent, report=False)
+                    parts = split_case(case["case"], sent)
+                    if parts is None:
+                        print(f"{len(sent)} packets on the link layer for a multi-packet scenario")
+                        return True
+                    res = [x for sc, pk in parts for x in judge_packet(ctx, sc, pk, report=False)]
                     known = {k["id"] for k in ctx.known if k.get("status") == "known"}
                     for w, fid in res:
                         print(("KNOWN " + fid + ": " if fid in known else "") + w)
@@ -1248,5 +1364,5 @@ def replay(ctx, obj):
                 print(res or "forwarded packet conforms")
                 return bool(res)
         finally:
-            router_mod.Timer = threading.Timer
+            pass
     raise Infra(f"unknown replay kind {kind}")
